@@ -152,3 +152,13 @@ Definition removal_oracle (sh : shell) (r : pref) (o : rop) (m : option (str -> 
   | None, sp => Ok (render sp [], None)
   | Some l, sp => Ok (render sp (map f l), None)
   end.
+
+(** * Keys: the subscripts that are set (0 for a set scalar), as words ([@]) or joined ([*]). *)
+Definition keys_spec (sh : shell) (concat : bool) : list str :=
+  let ks := match var sh with
+            | VStr _ => [zero_str]
+            | VIdx l => map (fun kv => show_Z (fst kv)) l
+            | VAssoc l => map (fun kv => fst kv) l
+            | _ => []
+            end in
+  render (if concat then ListStar else ListAt) ks.
